@@ -197,8 +197,8 @@ package drpcmanager
 //@   site (*Signal).Err assumeafter [nonnil] ret != nil
 //@   ghost entry cret = true
 //@   ghost after:(*Stream).Cancel cret = ret
-//@   ghost entry busy = false
-//@   ghost after:(*Stream).SendCancel busy = ret0
+//@   ghost entry wasBusy = false
+//@   ghost after:(*Stream).SendCancel wasBusy = ret0
 //@   ghost entry scerr = nil
 //@   ghost after:(*Stream).SendCancel scerr = ret1
 //@   site (*Stream).Cancel assert [C04.cancel-nonnil] arg1 != nil
@@ -207,7 +207,7 @@ package drpcmanager
 //@   check [C04.fin-noop]      eventCount("select:1") == 1 ==> eventCount("call:(*Stream).Cancel") == 0 && eventCount("call:(*Manager).terminate") == 0
 //@   check [C04.ctx-cancels]   eventCount("select:2") == 1 ==> eventCount("call:(*Stream).Cancel") == 1
 //@   check [C04.soft-order]    eventCount("select:2") == 1 && m.opts.SoftCancel ==> eventCount("call:(*Stream).SendCancel") == 1 && eventAfterLast("call:(*Stream).SendCancel", "call:(*Stream).Cancel")
-//@   check [C04.soft-busy]     eventCount("select:2") == 1 && old(m.opts.SoftCancel) && (busy || scerr != nil) ==> eventCount("call:(*Manager).terminate") == 1
+//@   check [C04.soft-wasBusy]     eventCount("select:2") == 1 && old(m.opts.SoftCancel) && (wasBusy || scerr != nil) ==> eventCount("call:(*Manager).terminate") == 1
 //@   check [C04.hard-unfinished] eventCount("select:2") == 1 && !old(m.opts.SoftCancel) && !cret ==> eventCount("call:(*Manager).terminate") == 1
 //@   check [C04.hard-no-packet] !old(m.opts.SoftCancel) ==> eventCount("call:(*Stream).SendCancel") == 0
 //@   check [C04.sem-released-once] eventCount("call:(*Chan).Recv") == 1
